@@ -79,6 +79,10 @@ class Contract:
     def result(self, c, a):
         return NotImplemented
 
+    def effects(self, c, a, result):
+        """ghost effects of a call when the contract is used modularly (read/write log entries)"""
+        pass
+
     def fresh_result(self, c, a):
         r = self.result(c, a)
         if r is NotImplemented:
@@ -166,6 +170,7 @@ class Contract:
                 raise PyRaise(self.may_raise[k - 1])
         r = self.fresh_result(c, a)
         self.post(EnsureCtx(c, 'assume'), a, r)
+        self.effects(c, a, r)
         return r
 
 
